@@ -932,3 +932,80 @@ func VfH_C01_malformed_gpos() {
 	}
 	vfReach("end")
 }
+
+// H-C01-malformed-gsub: the same end-to-end exercise for GSUB: subtables whose coverage lists more glyphs than
+// the array they index (alternate sets, sequences, ligature sets, reverse-chain substitutes) or whose chained
+// context names a missing lookup, directly or behind an Extension lookup, in a font file loaded by font.NewFont
+// and applied over a buffer by the real applyString.
+func vfMalformedGsubSubtable(which int) (lookupType uint16, w []uint16) {
+	switch which {
+	case 0: // alternate: coverage {1,2}, one alternate set
+		w = []uint16{1, 12, 1, 8, 1, 9}
+		w = append(w, vfCov(1, 2)...)
+		return 3, w
+	case 1: // multiple: coverage {1,2}, one sequence
+		w = []uint16{1, 14, 1, 8, 2, 7, 8}
+		w = append(w, vfCov(1, 2)...)
+		return 2, w
+	case 2: // ligature: coverage {1,2}, one ligature set
+		w = []uint16{1, 18, 1, 8, 1, 4, 9, 2, 2}
+		w = append(w, vfCov(1, 2)...)
+		return 4, w
+	case 3: // reverse chaining: coverage {1,2}, one substitute
+		w = []uint16{1, 12, 0, 0, 1, 9}
+		w = append(w, vfCov(1, 2)...)
+		return 8, w
+	default: // chained context format 3: input {2}, one record pointing to lookup 5
+		w = []uint16{3, 0, 1, 16, 0, 1, 0, 5}
+		w = append(w, vfCov(2)...)
+		return 6, w
+	}
+}
+
+func VfH_C01_malformed_gsub() {
+	which := vfChoice("table", 5)
+	extension := vfChoice("extension", 2) == 1
+	lookupType, sub := vfMalformedGsubSubtable(which)
+	if extension {
+		sub = append([]uint16{1, lookupType, 0, 8}, sub...) // ExtensionSubst format 1
+		lookupType = 7
+	}
+	gsub := []uint16{1, 0, 10, 12, 14, 0, 0, 1, 4, lookupType, 0, 1, 8}
+	gsub = append(gsub, sub...)
+	cmap := []uint16{0, 1, 3, 1, 0, 12, 4, 24, 0, 2, 2, 0, 0, 0xFFFF, 0, 0xFFFF, 1, 0}
+	head := make([]byte, 54)
+	head[18], head[19] = 0x03, 0xE8
+	file := ot.WriteTTF([]ot.Table{
+		{Tag: ot.MustNewTag("GSUB"), Content: vfWords(gsub...)},
+		{Tag: ot.MustNewTag("cmap"), Content: vfWords(cmap...)},
+		{Tag: ot.MustNewTag("head"), Content: head},
+		{Tag: ot.MustNewTag("maxp"), Content: []byte{0, 0, 0x50, 0, 0, 8}},
+	})
+	ld, err := ot.NewLoader(bytes.NewReader(file))
+	if err != nil {
+		panic("harness: font file does not load")
+	}
+	ft, err := font.NewFont(ld)
+	if err != nil {
+		panic("harness: minimal font rejected")
+	}
+	vfCover("loaded", len(ft.GSUB.Lookups) == 1)
+	vfCover("dropped", len(ft.GSUB.Lookups) == 0)
+	if len(ft.GSUB.Lookups) == 0 {
+		vfReach("end")
+		return
+	}
+	glyphs := []vfStepGlyph{{gid: 1, props: tables.GPBaseGlyph}, {gid: 2, props: tables.GPBaseGlyph}, {gid: 2, props: tables.GPBaseGlyph}}
+	for i := range glyphs {
+		glyphs[i].cluster = i
+	}
+	buf := vfStringBuffer(glyphs, LeftToRight)
+	var c otApplyContext
+	c.reset(0, NewFont(font.NewFace(ft)), buf)
+	c.recurseFunc = proxyGSUB.recurseFunc
+	c.setLookupMask(vfLookupMask)
+	var accel otLayoutLookupAccelerator
+	accel.init(lookupGSUB(ft.GSUB.Lookups[0]))
+	c.applyString(proxyGSUB, &accel)
+	vfReach("end")
+}
